@@ -436,9 +436,29 @@ func init() {
 			rc.World, rc.Ops = GenerateRun(seed, GenOptions{Sparse: r.IntN(2) == 0,
 				IngressKeys: []string{"secure-crt-secret", "secure-verify-ca-secret", "auth-tls-secret", "auth-secret", "auth-url", "auth-tls-verify-client", "secure-backends", "balance-algorithm"},
 				ServiceKeys: []string{"balance-algorithm", "timeout-server"}, ValueOverrides: refs, AnnChance: 2,
-				GlobalKeys:  []string{"cross-namespace-secrets-crt", "cross-namespace-secrets-ca", "cross-namespace-secrets-passwd", "cross-namespace-services", "timeout-client"},
+				GlobalKeys:    []string{"cross-namespace-secrets-crt", "cross-namespace-secrets-ca", "cross-namespace-secrets-passwd", "cross-namespace-services", "timeout-client"},
 				InitialGlobal: initial, TLSSecrets: []string{"tls1", "b/tls1", "a/tls1", "a/tls2", "secret://b/tls1", "b/missing", ""},
 				Hosts: []string{"app.local", "api.local", "web.local", "h4.local"}, MinOps: mn, MaxOps: mx, QuiesceEvery: pickInt(r, 2, 4), KeysPerRun: 8, W: w, NoForeignClass: true})
+			return rc
+		}})
+
+	// service-backed authentication: same-named services in two namespaces, shared auth proxy
+	register(&Profile{Name: "auth-svc", Prop: "C18", Weight: 1,
+		Oracles: OracleSet{Property: "C18", ExtAuth: true},
+		Build: func(seed uint64, tier string) *RunConfig {
+			r := cfgRng(seed)
+			mn, mx := tierOps(tier, 4, 16)
+			ctl := sampleCtl(r)
+			rc := &RunConfig{Property: "C18", Profile: "auth-svc", Seed: seed, Ctl: ctl, MapOrder: r.IntN(2) == 0, Lagfree: r.IntN(3) == 0, MidSched: r.IntN(2) == 0}
+			w := map[string]int{"ing_create": 8, "ing_delete": 5, "ing_update": 8, "ing_ann": 14, "global_change": 2, "ep_scale": 6, "svc_delete": 1, "svc_create": 2, "renotify": 2, "advance": 3}
+			initial := map[string]string{"external-has-lua": "true", "auth-proxy": []string{"_front__auth:14415-14419", "_front__auth:14415-14416", "_front__auth:14415-14417"}[r.IntN(3)]}
+			if r.IntN(3) == 0 {
+				initial["cross-namespace-services"] = "allow"
+			}
+			rc.World, rc.Ops = GenerateRun(seed, GenOptions{IngressKeys: []string{"auth-url", "auth-external-placement", "balance-algorithm"},
+				ValueOverrides: map[string][]string{"auth-url": {"svc://s1:8080", "svc://s1:8080/check", "svc://a/s2:8080", "svc://s2:8080", "svc://b/s3:8081", "svc://s1:80", "http://10.9.9.9:8000/auth"}, "auth-external-placement": {"backend", "backend", "frontend"}},
+				GlobalKeys: []string{"auth-proxy", "timeout-client"}, InitialGlobal: initial, AnnChance: 1, OwnHostAlways: true, Sparse: true,
+				MinOps: mn, MaxOps: mx, QuiesceEvery: pickInt(r, 2, 4), KeysPerRun: 3, W: w, NoForeignClass: true})
 			return rc
 		}})
 
